@@ -182,3 +182,8 @@ class _Runner(_Processor):
         if self._wait_for_cancel_task is not None:
             self._wait_for_cancel_task.cancel()
         self.cancel_event.set()
+        if self._tasks:
+            # the cancelled executions give their messages back themselves: let them, before the
+            # consumers are finished - a message returned by both ways could be taken by another
+            # worker in between and then be taken away from it by the later of the two
+            await asyncio.wait(self._tasks, return_when=asyncio.ALL_COMPLETED, timeout=5.0)
